@@ -14,43 +14,53 @@ var intrinsics map[string]primFn
 
 func init() {
 	intrinsics = map[string]primFn{
-		"errors.Is":                             iErrorsIs,
-		"errors.As":                             iErrorsAs,
-		"fmt.Errorf":                            iErrorf,
-		"fmt.Sprintf":                           iSprintf,
-		"fmt.Sprint":                            iSprintOpaque,
-		"fmt.Sprintln":                          iSprintOpaque,
-		"fmt.Printf":                            iNoop2,
-		"fmt.Println":                           iNoop2,
-		"fmt.Print":                             iNoop2,
-		"fmt.Fprintf":                           iNoop2,
-		"fmt.Fprintln":                          iNoop2,
-		"fmt.Fprint":                            iNoop2,
-		"log.Printf":                            iNoop,
-		"log.Print":                             iNoop,
-		"log.Println":                           iNoop,
-		"strings.HasPrefix":                     func(in *Interp, fn *ssa.Function, a []Value) Value { return strHasPrefix(a[0].(Term), a[1].(Term)) },
-		"strings.HasSuffix":                     func(in *Interp, fn *ssa.Function, a []Value) Value { return strHasSuffix(a[0].(Term), a[1].(Term)) },
-		"strings.Contains":                      func(in *Interp, fn *ssa.Function, a []Value) Value { return strContains(a[0].(Term), a[1].(Term)) },
-		"strings.CutPrefix":                     iCutPrefix,
-		"strings.TrimPrefix":                    iTrimPrefix,
-		"strings.TrimSuffix":                    iTrimSuffix,
-		"strings.Compare":                       iStrCompare,
-		"cmp.Compare":                           iCmpCompare,
-		"strings.Split":                         iStrSplit,
-		"strings.Join":                          iStrJoin,
-		"strings.Cut":                           iStrCut,
-		"(*sync.Mutex).Lock":                    iMutexLock,
-		"(*sync.Mutex).Unlock":                  iMutexUnlock,
-		"(*sync.RWMutex).Lock":                  iMutexLock,
-		"(*sync.RWMutex).Unlock":                iMutexUnlock,
-		"(*sync.RWMutex).RLock":                 iMutexLock,
-		"(*sync.RWMutex).RUnlock":               iMutexUnlock,
-		"time.Now":                              iTimeNow,
-		"(time.Time).UTC":                       func(in *Interp, fn *ssa.Function, a []Value) Value { t := a[0].(TimeV); t.UTC = true; return t },
-		"(time.Time).Unix":                      iTimeUnixOf,
-		"(time.Time).UnixMilli":                 iTimeUnixMilliOf,
-		"(time.Time).Sub":                       iTimeSub,
+		"errors.Is":               iErrorsIs,
+		"errors.As":               iErrorsAs,
+		"fmt.Errorf":              iErrorf,
+		"fmt.Sprintf":             iSprintf,
+		"fmt.Sprint":              iSprintOpaque,
+		"fmt.Sprintln":            iSprintOpaque,
+		"fmt.Printf":              iNoop2,
+		"fmt.Println":             iNoop2,
+		"fmt.Print":               iNoop2,
+		"fmt.Fprintf":             iNoop2,
+		"fmt.Fprintln":            iNoop2,
+		"fmt.Fprint":              iNoop2,
+		"log.Printf":              iNoop,
+		"log.Print":               iNoop,
+		"log.Println":             iNoop,
+		"strings.HasPrefix":       func(in *Interp, fn *ssa.Function, a []Value) Value { return strHasPrefix(a[0].(Term), a[1].(Term)) },
+		"strings.HasSuffix":       func(in *Interp, fn *ssa.Function, a []Value) Value { return strHasSuffix(a[0].(Term), a[1].(Term)) },
+		"strings.Contains":        func(in *Interp, fn *ssa.Function, a []Value) Value { return strContains(a[0].(Term), a[1].(Term)) },
+		"strings.CutPrefix":       iCutPrefix,
+		"strings.TrimPrefix":      iTrimPrefix,
+		"strings.TrimSuffix":      iTrimSuffix,
+		"strings.Compare":         iStrCompare,
+		"cmp.Compare":             iCmpCompare,
+		"strings.Split":           iStrSplit,
+		"strings.Join":            iStrJoin,
+		"strings.Cut":             iStrCut,
+		"(*sync.Mutex).Lock":      iMutexLock,
+		"(*sync.Mutex).Unlock":    iMutexUnlock,
+		"(*sync.RWMutex).Lock":    iMutexLock,
+		"(*sync.RWMutex).Unlock":  iMutexUnlock,
+		"(*sync.RWMutex).RLock":   iMutexLock,
+		"(*sync.RWMutex).RUnlock": iMutexUnlock,
+		"time.Now":                iTimeNow,
+		"(time.Time).UTC":         func(in *Interp, fn *ssa.Function, a []Value) Value { t := a[0].(TimeV); t.UTC = true; return t },
+		"(time.Time).Unix":        iTimeUnixOf,
+		"(time.Time).UnixMilli":   iTimeUnixMilliOf,
+		"(time.Time).UnixNano": func(in *Interp, fn *ssa.Function, a []Value) Value {
+			return intBin("-", a[0].(TimeV).NS, intBin("*", mkInt(unixToYear1Sec), mkInt(1000000000)))
+		},
+		"(time.Time).Sub": iTimeSub,
+		"(time.Time).After": func(in *Interp, fn *ssa.Function, a []Value) Value {
+			return intCmp(">", a[0].(TimeV).NS, a[1].(TimeV).NS)
+		},
+		"(time.Time).Before": func(in *Interp, fn *ssa.Function, a []Value) Value {
+			return intCmp("<", a[0].(TimeV).NS, a[1].(TimeV).NS)
+		},
+		"(time.Time).Equal":                     func(in *Interp, fn *ssa.Function, a []Value) Value { return tEq(a[0].(TimeV).NS, a[1].(TimeV).NS) },
 		"(time.Time).IsZero":                    func(in *Interp, fn *ssa.Function, a []Value) Value { return tEq(a[0].(TimeV).NS, mkInt(0)) },
 		"(time.Time).Round":                     func(in *Interp, fn *ssa.Function, a []Value) Value { return a[0] },
 		"time.Unix":                             iTimeUnix,
@@ -108,6 +118,7 @@ func init() {
 	registerPureStr()
 	registerBytesBuffer()
 	registerSyncPool()
+	registerRace()
 }
 
 // ---------- pure string -> string library functions on symbolic arguments ----------
